@@ -13,7 +13,7 @@ reference keys, one-to-many, one-to-one, many-to-many) and random states on real
     every attribute compared with the shadow.
 The real-code injectivity oracle (no two distinct keys share an encoding) is part of the tie run.
 """
-import itertools, json, pickle, sys
+import itertools, json, os, pickle, sys
 from datetime import date
 from decimal import Decimal
 from pony.orm import Database, Required, Optional, Set, PrimaryKey, LongStr, db_session, select, commit, flush
@@ -550,52 +550,70 @@ def check_pickle(ctx, w, rng, log):
             except Exception as e:
                 ctx.violation('pickle.loads in a new session raised', inp, observed=type(e).__name__ + ': ' + str(e)[:200], expected='objects', key='pickle-loads:%s:%s' % (kind, type(e).__name__))
 
-# ---- fixed minimal witnesses (run first on every run; the random search reports the same canonical keys)
+# ---- regression corpus (harness/corpus/C31/*.json: minimised past failures, now repaired in /repo; they must pass) and
+# ---- the fixed witness of the one recorded known finding.  The random search reports the same canonical keys.
+
+def corpus_cases():
+    d = os.path.join(os.path.dirname(os.path.dirname(os.path.abspath(__file__))), 'corpus', 'C31')
+    return [(f, json.load(open(os.path.join(d, f)))) for f in sorted(os.listdir(d)) if f.endswith('.json')] if os.path.isdir(d) else []
+
+def run_corpus(ctx):
+    for fname, c in corpus_cases():
+        w = World(c['cfg'])
+        def val(v):
+            if isinstance(v, dict) and 'ref' in v: return w.obj(v['ref'][0], tuple(v['ref'][1]))
+            if isinstance(v, list): return [val(i) for i in v]
+            return v
+        with db_session:
+            for en, kw in c['create']:
+                w.E[en](**{k: val(v) for k, v in kw.items()})
+                flush()
+        chk = c['check']
+        inp = {'corpus': fname, 'schema': w.src, 'create': c['create'], 'check': chk}
+        ctx.case(['corpus', fname], kind='oracle:corpus')
+        if chk['kind'] == 'to_dict':
+            results = []
+            with db_session:
+                for order in chk['orders']:
+                    r = jsonable(serialization.to_dict([w.obj(en, tuple(raw)) for en, raw in order]))
+                    results.append(r)
+                    x = r
+                    for k in chk['path']: x = x.get(k) if isinstance(x, dict) else None
+                    if x != chk['expect']:
+                        ctx.violation(c['what'], dict(inp, order=order), observed=x, expected=chk['expect'], key=c['key'])
+                if chk.get('same_for_all_orders') and any(r != results[0] for r in results):
+                    ctx.violation(c['what'], inp, observed=results, expected='the same result for every order', key=c['key'])
+                if c.get('model_collkey') and ctx.driver.ok:
+                    outs = ctx.driver('C31', [{'op': 'collkey', 'raw': raw} for raw in c['model_collkey']])
+                    model = sorted(list(o['ok'].values())[0] for o in outs)
+                    x = results[0]
+                    for k in chk['path']: x = x.get(k) if isinstance(x, dict) else None
+                    ctx.case(['corpus-model', fname], kind='tie:collection-key')
+                    if model != x:
+                        ctx.divergence('model bagCollectionKey and the real Bag._process_object collection keys disagree', inp, model=model, impl=x)
+        elif chk['kind'] == 'pickle-set':
+            with db_session:
+                data = pickle.dumps(getattr(w.obj(chk['owner'][0], tuple(chk['owner'][1])), chk['attr']))
+            with db_session:
+                got = sorted(list(i._get_raw_pkval_()) for i in pickle.loads(data))
+            if got != chk['expect']:
+                ctx.violation(c['what'], inp, observed=got, expected=chk['expect'], key=c['key'])
+        w.db.disconnect()
 
 def witnesses(ctx):
-    # W1: collection of entities whose single pk attribute references a two-column key (model: bagCollectionKey 1 [k,1] = bagCollectionKey 1 [k,2])
-    w = World(dict(a_pk='ss', b_pk='ref', m_pk='auto', b_a_required=False))
+    # dictionary keys: model bagDictKey vs real Bag.to_dict on a two-column key
+    w = World(dict(a_pk='ss', b_pk='auto', m_pk='auto', b_a_required=False))
     with db_session:
-        d = w.D(id=1); a1 = w.A(x='k', y='1'); a2 = w.A(x='k', y='2'); w.B(a=a1, d=d); w.B(a=a2, d=d)
+        w.A(x='k', y='1'); w.A(x='k,', y='*')
     with db_session:
-        got = serialization.to_dict(w.D[1])['D'][1]['bs']
-        ctx.case(['witness', 'collection-keys-truncated'], kind='oracle:witness')
+        keys = sorted(serialization.to_dict(list(w.A.select()))['A'])
+        ctx.case(['witness', 'dict-keys'], kind='tie:dict-key')
         if ctx.driver.ok:
-            outs = ctx.driver('C31', [{'op': 'collkey', 'pkAttrs': 1, 'raw': ['k', '1']}, {'op': 'collkey', 'pkAttrs': 1, 'raw': ['k', '2']},
-                                      {'op': 'collkey', 'pkAttrs': 2, 'raw': ['k', '1']}, {'op': 'dictkey', 'raw': ['k', '1']}])
-            model = sorted(list(o['ok'].values())[0] for o in outs[:2])
-            if model != got: ctx.divergence('model of the collection branch of Bag._process_object and the real output disagree', 'W1', model=model, impl=got)
-            bkeys = sorted(serialization.to_dict(list(w.B.select()))['B'])
-            if bkeys != ['k,1', 'k,2'] or outs[3]['ok'] != {'text': 'k,1'}:
-                ctx.divergence('model bagDictKey and real Bag.to_dict keys disagree', 'W1', model=outs[3], impl=bkeys)
-        if got != ['k,1', 'k,2']:
-            ctx.violation("serialization.to_dict reports two distinct related objects under the same key: a collection of entities whose primary key is one attribute referencing a composite-key entity is reduced to column 0 of the key (Bag._process_object tests _pk_is_composite_ instead of len(_pk_columns_) > 1)",
-                          {'schema': w.src, 'objects': "D(id=1); B(a=A('k','1'), d=D[1]); B(a=A('k','2'), d=D[1])", 'call': 'to_dict(D[1])'}, observed=got, expected=['k,1', 'k,2'], key=K_TRUNC)
-    # W2: two given objects that are related: the one reached as "related" first loses its collection attributes; output depends on the order
-    w = World(dict(a_pk='auto', b_pk='auto', m_pk='auto', b_a_required=False))
-    with db_session:
-        a = w.A(id=1); b = w.B(id=1, a=a); d = w.D(id=1); b.d = d
-    with db_session:
-        a, b = w.A[1], w.B[1]
-        r1 = serialization.to_dict([a, b]); r2 = serialization.to_dict([b, a])
-        ctx.case(['witness', 'given-related'], kind='oracle:witness')
-        if 'bs' not in r2['A'][1] or 'bs' not in r1['A'][1] or jsonable(r1) != jsonable(r2):
-            ctx.violation('serialization.to_dict([b, a]) omits the collection attributes of a given object that is also related to another given object (processed with process_related=False, overwriting / pre-empting its full entry); the result depends on the order of the entities',
-                          {'schema': w.src, 'objects': 'a = A(id=1); B(id=1, a=a)', 'call': 'to_dict([a, b]) vs to_dict([b, a])'},
-                          observed={'[a,b]': jsonable(r1).get('A'), '[b,a]': jsonable(r2).get('A')}, expected="A[1] reported with 'bs': [1] in both", key=K_LOSES)
-    # W3: many-to-many SetInstance
-    w = World(dict(a_pk='auto', b_pk='auto', m_pk='auto', b_a_required=False))
-    with db_session:
-        a = w.A(id=1); w.M(id=1, as_=[a])
-    with db_session:
-        p = pickle.dumps(w.A[1].ms)
-    with db_session:
-        got = sorted(m.id for m in pickle.loads(p))
-        ctx.case(['witness', 'm2m-set'], kind='oracle:witness')
-        if got != [1]:
-            ctx.violation('a pickled many-to-many collection unpickles as an empty, fully-loaded set (unpickle_setwrapper ignores `items`)',
-                          {'schema': w.src, 'objects': 'a = A(id=1); M(id=1, as_=[a])', 'call': 'pickle.loads(pickle.dumps(A[1].ms)) in a new db_session'}, observed=got, expected=[1], key=K_M2M)
-    # W4: loaded one-to-one pair
+            outs = ctx.driver('C31', [{'op': 'dictkey', 'raw': ['k', '1']}, {'op': 'dictkey', 'raw': ['k,', '*']}])
+            model = sorted(o['ok'].get('text') for o in outs)
+            if model != keys: ctx.divergence('model bagDictKey and real Bag.to_dict keys disagree', 'dict-keys', model=model, impl=keys)
+    w.db.disconnect()
+    # known finding (not repaired in /repo): loaded one-to-one pair
     w = World(dict(a_pk='auto', b_pk='ref', m_pk='auto', b_a_required=False))
     with db_session:
         a = w.A(id=1); w.B(a=a)
@@ -639,6 +657,7 @@ def state_oracle(ctx):
 
 def run(ctx):
     key_tie(ctx)
+    run_corpus(ctx)
     witnesses(ctx)
     state_oracle(ctx)
 
